@@ -538,19 +538,46 @@ def r06_10(ctx: Ctx, rule: str = "R06.10") -> None:
             continue  # single-folder arm and the empty-file call carry no index
         n += 1
         fsub = files.value if isinstance(files, ast.Attribute) and files.attr == "files" else None
-        ok = isinstance(fsub, ast.Subscript)
-        why = "the member list is not `folders[I].files`"
-        if ok:
-            idx = norm(fsub.slice)
-            ssubs = [x for x in ast.walk(start) if isinstance(x, ast.Subscript)]
-            esubs = [x for x in ast.walk(end) if isinstance(x, ast.Subscript)]
-            ok = len(ssubs) == 1 and len(esubs) == 1 and norm(ssubs[0].slice) == idx and norm(esubs[0].slice).replace(" ", "") in (f"{idx}+1", f"1+{idx}") \
+        ok = False
+        why = "the member list is not `folders[I].files` (or the `.files` of the loop's own folder variable)"
+        lp = q.enclosing_loops(ex, c)[-1]
+        ssubs = [x for x in ast.walk(start) if isinstance(x, ast.Subscript)]
+        esubs = [x for x in ast.walk(end) if isinstance(x, ast.Subscript)]
+
+        def window_ok(idx: str) -> bool:
+            return len(ssubs) == 1 and len(esubs) == 1 and norm(ssubs[0].slice) == idx and norm(esubs[0].slice).replace(" ", "") in (f"{idx}+1", f"1+{idx}") \
                 and norm(ssubs[0].value) == norm(esubs[0].value)
+
+        if isinstance(fsub, ast.Subscript):
+            # (A) for I in range(n): folders[I].files, positions[I], positions[I + 1]
+            idx = norm(fsub.slice)
+            ok = window_ok(idx)
             why = f"window {norm(start)} .. {norm(end)} is not positions[{idx}] .. positions[{idx} + 1] of one sequence"
             if ok:
                 ok = ends_in(fsub.value, "folders") and ends_in(ssubs[0].value, "packpositions")
                 why = (f"`{norm(fsub.value)}` / `{norm(ssubs[0].value)}` are not the archive's full folder list and pack positions on every path "
                        "(e.g. the folder list is filtered but still indexed by position)")
+        elif isinstance(fsub, ast.Name) and isinstance(lp, ast.For):
+            it, tg = lp.iter, lp.target
+            if isinstance(it, ast.Call) and dotted(it.func) == "enumerate" and it.args and isinstance(tg, ast.Tuple) and len(tg.elts) == 2 \
+                    and isinstance(tg.elts[0], ast.Name) and isinstance(tg.elts[1], ast.Name) and tg.elts[1].id == fsub.id:
+                # (B) for I, folder in enumerate(folders): the index is the folder's own only if the list is the full one
+                idx = tg.elts[0].id
+                ok = window_ok(idx)
+                why = f"window {norm(start)} .. {norm(end)} is not positions[{idx}] .. positions[{idx} + 1] of one sequence"
+                if ok:
+                    ok = ends_in(it.args[0], "folders") and ends_in(ssubs[0].value, "packpositions") and len(it.args) == 1
+                    why = (f"`{norm(it.args[0])}` is enumerated but it is not the archive's full folder list on every path (a filtered list still indexed by "
+                           "position into the pack positions)")
+            elif isinstance(it, ast.Call) and dotted(it.func) == "zip" and len(it.args) == 3 and isinstance(tg, ast.Tuple) and len(tg.elts) == 3 \
+                    and all(isinstance(e, ast.Name) for e in tg.elts) and tg.elts[0].id == fsub.id:
+                # (C) for folder, a, b in zip(folders, positions, positions[1:])
+                a, b = tg.elts[1].id, tg.elts[2].id
+                third = it.args[2]
+                ok = any(isinstance(x, ast.Name) and x.id == a for x in ast.walk(start)) and any(isinstance(x, ast.Name) and x.id == b for x in ast.walk(end)) \
+                    and isinstance(third, ast.Subscript) and isinstance(third.slice, ast.Slice) and norm(third.slice.lower) == "1" and third.slice.upper is None \
+                    and norm(third.value) == norm(it.args[1]) and ends_in(it.args[0], "folders") and ends_in(it.args[1], "packpositions")
+                why = "the zip of folders, positions and positions[1:] does not pair each full-list folder with its own window"
         ctx.check(ok, rule, ex, c, "folder task gets folders[I].files with window positions[I]..positions[I+1]",
                   "a folder task is started with a member list and a byte window that do not belong to the same folder: " + why +
                   "; later folders are decoded from the wrong offset (CrcError, or another member's bytes where no CRC is stored)",
@@ -637,8 +664,24 @@ def r06_12(ctx: Ctx, rule: str = "R06.12") -> None:
     n_loops = 0
     for lp in [n for n in walk(ex.node) if isinstance(n, ast.For)]:
         # uses of a subscripted folder (folders[i]) in the loop
-        uses = [n for n in ast.walk(lp) if isinstance(n, ast.Subscript) and isinstance(n.value, ast.Name)
-                and any(norm(v).endswith("unpackinfo.folders") or isinstance(v, ast.ListComp) for v in q.assigned_values(ex, n.value.id))]
+        def folder_list(e: ast.AST) -> bool:
+            return isinstance(e, ast.Name) and any(norm(v).endswith("unpackinfo.folders") or isinstance(v, ast.ListComp) for v in q.assigned_values(ex, e.id))
+
+        uses = [n for n in ast.walk(lp) if isinstance(n, ast.Subscript) and folder_list(n.value)]
+        # `for folder in folders` / `for i, folder in enumerate(folders)` / `for folder, a, b in zip(folders, ...)`: the loop's own folder variable
+        it = lp.iter
+        src = it.args[0] if isinstance(it, ast.Call) and dotted(it.func) in ("enumerate", "zip") and it.args else it
+        if folder_list(src):
+            tnames = [t for t in ([lp.target] if isinstance(lp.target, ast.Name) else list(getattr(lp.target, "elts", []))) if isinstance(t, ast.Name)]
+            fvar = None
+            if isinstance(lp.target, ast.Name):
+                fvar = lp.target.id
+            elif isinstance(it, ast.Call) and dotted(it.func) == "enumerate" and len(tnames) == 2:
+                fvar = tnames[1].id
+            elif isinstance(it, ast.Call) and dotted(it.func) == "zip" and tnames:
+                fvar = tnames[0].id
+            if fvar is not None:
+                uses += [n for st in lp.body for n in ast.walk(st) if isinstance(n, ast.Name) and n.id == fvar and isinstance(n.ctx, ast.Load)]
         if not uses:
             continue
         n_loops += 1
@@ -662,7 +705,75 @@ def r06_12(ctx: Ctx, rule: str = "R06.12") -> None:
     ctx.floor(rule, n_loops, 2, "folder dispatch loops in Worker.extract")
 
 
+def dispatch_forwards_skip(ctx: Ctx, rule: str) -> None:
+    """sibling dispatch sites: every folder task Worker.extract starts (single folder, sequential loop, thread/process spawn) hands its
+    own `skip_notarget` on to extract_single.  A site that drops it runs with the default (True): testzip()/test(), which register no
+    targets and pass skip_notarget=False, then decode nothing on that path and report a damaged member as good."""
+    ex = ctx.prog.func("py7zr", "Worker.extract")
+    tgt = ctx.prog.func("py7zr", "Worker.extract_single")
+    ctx.need("skip_notarget" in ex.params and "skip_notarget" in tgt.params, "skip_notarget parameter of Worker.extract / extract_single not found")
+    pos = tgt.params.index("skip_notarget") - 1  # without self
+    n = 0
+    for c in q.calls(ex):
+        args, kws = None, {}
+        if "py7zr:Worker.extract_single" in shared.targets_of(ctx, ex, c):
+            args, kws = list(c.args), {k.arg: k.value for k in c.keywords}
+        else:
+            tup = next((k.value for k in c.keywords if k.arg == "args"), None)
+            if isinstance(tup, ast.Tuple) and any(k.arg == "target" for k in c.keywords):
+                args = list(tup.elts)
+                kw = next((k.value for k in c.keywords if k.arg == "kwargs"), None)
+                if isinstance(kw, ast.Dict):
+                    kws = {k.value: v for k, v in zip(kw.keys, kw.values) if isinstance(k, ast.Constant)}
+        if args is None or len(args) < 5:
+            continue
+        # the empty-member call (window 0..0) decodes nothing
+        if isinstance(args[3], ast.Constant) and isinstance(args[4], ast.Constant) and args[3].value == 0 and args[4].value == 0:
+            continue
+        n += 1
+        val = kws.get("skip_notarget", args[pos] if len(args) > pos else None)
+        ok = val is not None and any(isinstance(s_, ast.Name) and s_.id == "skip_notarget" for s_ in [val] + list(q.sources_of(ex, val, depth=2)))
+        ctx.check(ok, rule, ex, c, "folder task receives Worker.extract's skip_notarget",
+                  "a folder task is started without Worker.extract's own `skip_notarget` (the callee's default True applies): on this path testzip()/test() skip every "
+                  "member instead of decoding it, so a damaged member is reported as good", construct="dispatch skip_notarget")
+    ctx.floor(rule, n, 3, "folder task dispatch sites in Worker.extract")
+
+
+def r06_13(ctx: Ctx, rule: str = "R06.13") -> None:
+    """compact CRC lists: read_crcs returns one entry per DEFINED flag only.  An index into such a list must be a cursor that advances
+    exactly where a flag was true; the flag vector itself is indexed by a cursor that advances on every stream.  Using the flag cursor
+    for the compact list is invisible while all digests are defined (every py7zr-written archive) and gives wrong CRCs / IndexError for a
+    partially defined vector."""
+    n_sites = 0
+    for f in ctx.prog.funcs_in("archiveinfo"):
+        compact = {t.id for n in walk(f.node) if isinstance(n, ast.Assign) and isinstance(n.value, ast.Call) and attr_tail(n.value) == "read_crcs"
+                   and any(isinstance(x, ast.Call) and attr_tail(x) == "count" for a in n.value.args for x in ast.walk(a))
+                   for t in n.targets if isinstance(t, ast.Name)}
+        flags = {t.id for n in walk(f.node) if isinstance(n, ast.Assign) and isinstance(n.value, ast.Call) and attr_tail(n.value) == "read_boolean"
+                 for t in n.targets if isinstance(t, ast.Name)}
+        if not compact or not flags:
+            continue
+        for sub in [x for x in walk(f.node) if isinstance(x, ast.Subscript) and isinstance(x.value, ast.Name) and x.value.id in compact and isinstance(x.ctx, ast.Load)]:
+            n_sites += 1
+            if not isinstance(sub.slice, ast.Name):
+                ctx.fail(rule, f, sub, f"the compact CRC list `{sub.value.id}` is indexed by `{norm(sub.slice)}`, not by a dedicated cursor")
+                continue
+            cur = sub.slice.id
+            incs = [n for n in walk(f.node) if isinstance(n, ast.AugAssign) and isinstance(n.target, ast.Name) and n.target.id == cur and isinstance(n.op, ast.Add)]
+            def under_flag(node) -> bool:
+                return any(pol and isinstance(cd, ast.Subscript) and isinstance(cd.value, ast.Name) and cd.value.id in flags for cd, pol in q.facts_at(f, node))
+            ok = bool(incs) and all(under_flag(i) for i in incs) and under_flag(sub)
+            ctx.check(ok, rule, f, sub, f"{f.qname}: compact CRC list indexed by a cursor that advances only for defined flags",
+                      f"{f.qname}: `{norm(sub)}` indexes the compact list of stored CRCs (one entry per DEFINED flag) with `{cur}`, which does not advance exactly under a true "
+                      "flag (it is the cursor of the flag vector): with a partially defined digest vector members get the wrong CRC or the header is refused with IndexError",
+                      construct=f"compact index {norm(sub)}")
+    if n_sites == 0:
+        # no reader keeps a compact list apart from its flag vector (R06.3 decides whether only the defined CRCs are read at all)
+        ctx.note(f"{rule}: no compact CRC list (read_crcs(file, flags.count(True))) is indexed in archiveinfo: nothing to decide")
+
+
 def run(ctx: Ctx) -> None:
+    r06_13(ctx)
     r06_12(ctx)
     r06_11(ctx)
     r06_10(ctx)
